@@ -155,6 +155,8 @@ CouponHashSet<A>* CouponHashSet<A>::newSet(std::istream& is, const A& allocator)
   const bool compactFlag = ((listHeader[hll_constants::FLAGS_BYTE] & hll_constants::COMPACT_FLAG_MASK) ? true : false);
 
   const auto couponCount = read<uint32_t>(is);
+  if (!is.good())
+    throw std::runtime_error("error reading from std::istream");
   if (lgArrInts < hll_constants::LG_INIT_SET_SIZE) {
     lgArrInts = HllUtil<>::computeLgArrInts(SET, couponCount, lgK);
   }
@@ -169,6 +171,8 @@ CouponHashSet<A>* CouponHashSet<A>::newSet(std::istream& is, const A& allocator)
   if (compactFlag) {
     for (uint32_t i = 0; i < couponCount; ++i) {
       const auto coupon = read<uint32_t>(is);
+      if (!is.good())
+        throw std::runtime_error("error reading from std::istream");
       sketch->couponUpdate(coupon);
     }
   } else {
